@@ -814,7 +814,7 @@ func (i *Iter) Root(dst *Iter) (Type, *Iter, error) {
 	if i.t != TagRoot {
 		return TypeNone, dst, errors.New("value is not root")
 	}
-	if i.cur > uint64(len(i.tape.Tape)) {
+	if i.cur > uint64(len(i.tape.Tape)) || i.cur == 0 {
 		return TypeNone, dst, errors.New("root element extends beyond tape")
 	}
 	if dst == nil {
